@@ -1240,8 +1240,28 @@ def rule_reshape(ctx):
     if gen:
         kw = {k.arg: k.value for k in gen[0].keywords}
         u = kw.get("unpack")
-        ctx.check(isinstance(u, ast.Constant) and u.value is True, "DATA.RESHAPE", NUMPY + "#unpack", fn, gen[0],
-                  "fast engine returns columns (unpack=True)", "fast engine does not pass unpack=True: rows are handed out as columns")
+        unpack_ok = isinstance(u, ast.Constant) and u.value is True
+        how = "unpack=True"
+        if u is None:
+            # the explicit form: the 2-D result (ndmin=2 on the call itself) is transposed on every return
+            holder = [a_.targets[0].id for a_ in walk_shallow(fn.node) if isinstance(a_, ast.Assign) and a_.value is gen[0]
+                      and len(a_.targets) == 1 and isinstance(a_.targets[0], ast.Name)]
+            rets = [r_.value for r_ in walk_shallow(fn.node) if isinstance(r_, ast.Return) and r_.value is not None]
+            nd = kw.get("ndmin")
+
+            def transposed(e):
+                if isinstance(e, ast.Attribute) and e.attr == "T":
+                    e = e.value
+                elif isinstance(e, ast.Call) and ast.unparse(e.func).split(".")[-1] == "transpose" and len(e.args) == 1 and not e.keywords:
+                    e = e.args[0]
+                else:
+                    return False
+                return (isinstance(e, ast.Name) and e.id in holder) or e is gen[0]
+            if rets and all(transposed(e) for e in rets) and isinstance(nd, ast.Constant) and nd.value == 2:
+                unpack_ok, how = True, "ndmin=2 result transposed explicitly"
+        ctx.check(unpack_ok, "DATA.RESHAPE", NUMPY + "#unpack", fn, gen[0],
+                  "fast engine returns columns (%s)" % how, "fast engine neither passes unpack=True nor transposes a result that genfromtxt "
+                  "itself made 2-D (ndmin=2): rows are handed out as columns, or a single-column section is turned on its side")
         for bad in ("usecols", "skip_footer", "invalid_raise", "filling_values", "missing_values"):
             if bad in kw and not (bad == "invalid_raise" and isinstance(kw[bad], ast.Constant) and kw[bad].value is True):
                 ctx.bad("DATA.RESHAPE", NUMPY + "#" + bad, fn, gen[0], "genfromtxt is given %s=%s: rows or columns are "
@@ -1524,7 +1544,8 @@ def rule_data_format(ctx):
                 problems.append("`%s` pads to a width computed from the length of another text: the spacer is no longer a separate "
                                 "separator, so a value wider than the numeric field is glued to the previous value" % unparse(c_)[:70])
     fmts = [b for b in walk_shallow(fmtf.node) if isinstance(b, ast.BinOp) and isinstance(b.op, ast.Mod)]
-    if not any(isinstance(b.right, ast.Name) and b.right.id == n and isinstance(b.left, ast.Name) for b in fmts):
+    if not any(isinstance(b.right, ast.Name) and b.right.id == n and (isinstance(b.left, ast.Name) or (
+            isinstance(b.left, ast.Attribute) and isinstance(b.left.value, ast.Name))) for b in fmts):      # `fmt % n` / `spec.fmt % n`
         problems.append("a finite sample is not written as `<fmt> % <sample>`")
     ctx.check(not problems, "WR.DATA-FORMAT", fmtf.qual + "#cell", fmtf, fmtf.node,
               "a finite sample is formatted as fmt % sample, unmodified", "; ".join(dict.fromkeys(problems)))
